@@ -335,6 +335,10 @@ def ceil_block(text, var, src_sym):
     m = re.search(rf'{var} = {src_sym} \* (\d+)\s*\n\s*if {var} % (\d+):[^\n]*\n\s*{var} = {var} / \2 \+ 1\s*\n\s*else:\s*\n\s*{var} /= \2', text)
     if m:
         return Lin({f'ceil({m.group(1)}*b/{m.group(2)})': 1})
+    # the closed form: var = S*k + (d-1); var /= d   (C integer division)
+    m = re.search(rf'{var} = {src_sym} ?\* ?(\d+) \+ (\d+)\s*\n\s*{var} /= (\d+)', text) or re.search(rf'{var} = \({src_sym} ?\* ?(\d+) \+ (\d+)\) / (\d+)', text)
+    if m and int(m.group(2)) == int(m.group(3)) - 1:
+        return Lin({f'ceil({m.group(1)}*b/{m.group(3)})': 1})
     return None
 
 
@@ -434,10 +438,11 @@ def rule_stereo_codes(ck, repo, R):
     wt = {(True, True): int(m.group(1), 16) >> 4, (True, False): int(m.group(2), 16) >> 4, (False, True): int(m.group(3), 16) >> 4, (False, False): int(m.group(4), 16) >> 4}
     r = strip_comments(pyx_source(repo.root, UNPACK))
     rd = {}
-    for mm in re.finditer(r'(?:if|elif) stereo == (0b[01]+|\d+):\s*\n\s*py_nan_bool = (None|True|False)', r):
-        rd[int(mm.group(1), 0)] = {'None': None, 'True': True, 'False': False}[mm.group(2)]
+    for mm in re.finditer(r'(?:if|elif) (stereo == (?:0b[01]+|\d+)(?: or stereo == (?:0b[01]+|\d+))*):[^\n]*\n\s*py_nan_bool = (None|True|False)', r):
+        for k in re.findall(r'stereo == (0b[01]+|\d+)', mm.group(1)):  # arms may be merged with `or`
+            rd[int(k, 0)] = {'None': None, 'True': True, 'False': False}[mm.group(2)]
     els = re.search(r'else:[^\n]*\n\s*py_nan_bool = (True|False)', r)
-    ck.require(len(rd) == 4 and els is not None, 'reader: stereo nibble ladder not recognised')
+    ck.require(len(rd) >= 3 and els is not None, 'reader: stereo nibble ladder not recognised')
     for (sign, allene), code in sorted(wt.items()):
         got = rd.get(code, els.group(1) == 'True')
         ck.decide(got is sign, R, f'sign={sign},allene={allene}', code, f'writer codes (sign={sign}, allene={allene}) as nibble {code:#x}; reader decodes it as {got}', file=PACK)
